@@ -280,3 +280,67 @@ Fixpoint kdepth (e : kexpr) : nat :=
   | KBase _ _ => 1
   | KPair _ l r _ => S (Nat.max (kdepth l) (match r with inl k => kdepth k | inr _ => 0 end))
   end.
+
+(* ------------------------------------------------------------------ *)
+(* predictors (mellon/base_predictor.py: __getstate__, from_dict incl. the pre-1.4.0 upgrade, __setstate__) *)
+Record pstate := mk_pstate { p_cls : string; p_data : list (string * val); p_cov : kexpr }.
+
+Definition predictor_classes : list string :=
+  ["FullConditional"; "ExpFullConditional"; "FullConditionalTime";
+   "LandmarksConditional"; "ExpLandmarksConditional"; "LandmarksConditionalTime";
+   "LandmarksConditionalCholesky"; "ExpLandmarksConditionalCholesky"; "LandmarksConditionalCholeskyTime"].
+
+(* __getstate__ without the volatile metadata entries; p_data = state variables in _data_dict order
+   followed by n_input_features, n_obs, _state_variables *)
+Definition pser (version : string) (p : pstate) : val :=
+  VDict [(VStr "data", VDict (map (fun kv => (VStr (fst kv), ser (snd kv))) (p_data p)));
+         (VStr "cov_func", kser (p_cov p));
+         (VStr "metadata", VDict [(VStr "classname", VStr (p_cls p)); (VStr "module_name", VStr "mellon.conditional");
+                                  (VStr "module_version", VStr version)])].
+
+(* "XConditionalMean" -> "XConditional" (str.replace) for the class names that existed before 1.4.0 *)
+Definition legacy_names : list (string * string) :=
+  [("FullConditionalMean", "FullConditional"); ("ExpFullConditionalMean", "ExpFullConditional");
+   ("FullConditionalMeanTime", "FullConditionalTime");
+   ("LandmarksConditionalMean", "LandmarksConditional"); ("ExpLandmarksConditionalMean", "ExpLandmarksConditional");
+   ("LandmarksConditionalMeanTime", "LandmarksConditionalTime");
+   ("LandmarksConditionalMeanCholesky", "LandmarksConditionalCholesky");
+   ("ExpLandmarksConditionalMeanCholesky", "ExpLandmarksConditionalCholesky");
+   ("LandmarksConditionalMeanCholeskyTime", "LandmarksConditionalCholeskyTime")].
+Definition upgrade_name (cls : string) : string :=
+  match find (fun p => string_eqb (fst p) cls) legacy_names with Some (_, n) => n | None => cls end.
+
+Fixpoint has_key (k : string) (l : list (val * val)) : bool :=
+  match l with [] => false | (VStr k', _) :: r => string_eqb k k' || has_key k r | _ :: r => has_key k r end.
+
+(* from_dict; [legacy] is the verdict of version.parse(module_version) < version.parse("1.4.0") (packaging, an oracle) *)
+Definition pdeser (legacy : bool) (kfuel : nat) (s : val) : res pstate :=
+  match s with
+  | VDict l =>
+      match dict_get "metadata" l, dict_get "data" l, dict_get "cov_func" l with
+      | Some (VDict m), Some (VDict d), Some c =>
+          match dict_get "classname" m, dict_get "module_name" m with
+          | Some (VStr cls), Some (VStr modname) =>
+              let cls := if legacy && string_eqb modname "mellon.conditional" then upgrade_name cls else cls in
+              let d := if legacy then
+                         let d1 := if has_key "n_obs" d then d else (d ++ [(VStr "n_obs", VNone)])%list in
+                         if has_key "_state_variables" d1 then d1
+                         else (d1 ++ [(VStr "_state_variables",
+                                       VSet (filter (fun k => negb (scalar_eqb k (VStr "n_input_features"))) (map fst d1)))])%list
+                       else d in
+              if mem_str cls predictor_classes then
+                bind (deser_attrs d) (fun data =>
+                bind (kdeser kfuel c) (fun cov => Ok (mk_pstate cls data cov)))
+              else Err AttributeError
+          | _, _ => Err KeyError
+          end
+      | _, _, _ => Err KeyError
+      end
+  | _ => Err TypeError
+  end.
+
+(* file codecs selected by to_json(filename, compress) and from_json(filepath, compress) *)
+Inductive codec := Plain | Gzip | Bz2.
+Definition ends_with (suffix s : string) : bool :=
+  let n := String.length s in let k := String.length suffix in
+  if Nat.leb k n then string_eqb (substring (n - k) k s) suffix else false.
